@@ -1,4 +1,5 @@
 import PGA.Proofs.Psd
+import PGA.Props.C14Eval
 import PGA.Spec.LibTable
 import PGA.Model.Paths
 import PGA.Gen.LibAll
@@ -8,7 +9,10 @@ import PGA.Gen.LibAll
 General theorems (any size) + table obligations.  The table obligations themselves are generated
 next to the tables (`PGA/Gen/LibObl_<lib>.lean`, `PGA/Gen/UqObl_<lib>.lean`) from the live loaded
 libraries on every run and are listed as obligations of C14 by the harness; this file holds the
-general statements they instantiate.
+general statements they instantiate.  **T1** (a well-formed record is constructed by the thermo model and evaluates
+for every `T` of its range) is in `PGA/Props/C14Eval.lean` (`C14_wf_group_constructs`, `C14_wf_group_evaluates`,
+`C14_wf_group_reproduces`, `C14_wf_group_range_row`), imported here and by every `LibObl_<lib>` module, whose
+`groups_evaluate` / `groups_reproduce` are its instances from `groups_wf`.
 -/
 namespace PGA.LibTable
 open PGA
